@@ -619,7 +619,15 @@ impl<'r> G<'r> {
 
     pub fn let_stmt(&mut self, depth: u32) {
         // let F = v in def X : C;   where C (or an ancestor) has field F
-        let cands: Vec<ClassInfo> = self.classes.iter().filter(|c| c.fields.iter().any(|f| !f.overridden)).cloned().collect();
+        let mut cands: Vec<ClassInfo> = self.classes.iter().filter(|c| c.fields.iter().any(|f| !f.overridden)).cloned().collect();
+        if let Some(dc) = self.defset_class.clone() {
+            // inside a defset every def is of the element class
+            cands.retain(|c| c.name == dc.name);
+            if cands.is_empty() {
+                self.def_stmt(Some(&dc));
+                return;
+            }
+        }
         if cands.is_empty() {
             self.assert_stmt();
             return;
@@ -639,7 +647,7 @@ impl<'r> G<'r> {
         let ci2 = ci.clone();
         let _ = depth;
         self.block("let", move |g| {
-            if g.rng.chance(1, 4) && !g.in_multiclass {
+            if g.rng.chance(1, 4) && !g.in_multiclass && g.defset_class.is_none() {
                 g.defvar_stmt();
             } else {
                 g.def_stmt(Some(&ci2));
@@ -682,10 +690,18 @@ impl<'r> G<'r> {
         let n = self.rng.range(1, 3);
         for _ in 0..n {
             self.nl();
-            if self.rng.chance(1, 4) {
-                self.foreach_stmt(2);
-            } else {
-                self.def_stmt(Some(&ci));
+            // defs directly in the defset, and under foreach / if / let inside it (all are the defset's children)
+            match self.rng.below(8) {
+                0 | 1 => self.foreach_stmt(2),
+                2 => {
+                    self.if_stmt(2);
+                    self.p.features.push("defset:def-under-if");
+                }
+                3 => {
+                    self.let_stmt(2);
+                    self.p.features.push("defset:def-under-let");
+                }
+                _ => self.def_stmt(Some(&ci)),
             }
             self.trim_trailing_ws();
         }
